@@ -21,7 +21,7 @@ func init() {
 				"Not decided: true-path reporting after renames in general; the documented mkdir -p limitation.",
 			Rule:        "one obligation per HasPrefix/Replace/TrimPrefix site on paths, per recursive-registration fact, per rewritten path store",
 			Assumptions: []string{"go/types + go/ssa", "the path separator on the inotify backend is \"/\""},
-			MinObl:      6,
+			MinObl:      7,
 		},
 		Configs: tiered(linuxQuick, linuxAll),
 		Run:     runC19,
